@@ -117,6 +117,43 @@ func azWrapper(e *Env) (pre, suf string, ok bool) {
 				return l + r, ok1 && ok2
 			}
 		case *ssa.Call:
+			if callName(&x.Call) == "strings.(Builder).String" && len(x.Call.Args) == 1 {
+				// the builder's content: its WriteString calls in program order (straight-line code)
+				type wr struct {
+					pos token.Pos
+					s   string
+				}
+				var ws []wr
+				okB := true
+				if refs := x.Call.Args[0].Referrers(); refs != nil {
+					for _, ref := range *refs {
+						wc, isCall := ref.(*ssa.Call)
+						if !isCall || wc == x {
+							continue
+						}
+						switch callName(&wc.Call) {
+						case "strings.(Builder).WriteString":
+							part, okP := flat(f, wc.Call.Args[1], param, d+1)
+							if !okP || wc.Block() != x.Block() {
+								okB = false
+							}
+							ws = append(ws, wr{wc.Pos(), part})
+						case "strings.(Builder).Grow", "strings.(Builder).Len":
+						default:
+							okB = false
+						}
+					}
+				}
+				if okB {
+					sort.Slice(ws, func(i, j int) bool { return ws[i].pos < ws[j].pos })
+					out := ""
+					for _, w := range ws {
+						out += w.s
+					}
+					return out, true
+				}
+				return "", false
+			}
 			g := x.Call.StaticCallee()
 			if g != nil && g.Pkg == fn.Pkg && len(g.Blocks) == 1 && len(g.Params) == 1 && len(x.Call.Args) == 1 {
 				if ret, isRet := g.Blocks[0].Instrs[len(g.Blocks[0].Instrs)-1].(*ssa.Return); isRet && len(ret.Results) == 1 {
